@@ -64,5 +64,16 @@ Inv_Sem    == phase = "move" => SymExec(orig, perm) = SymExec(orig, Id(Len(orig)
 Inv_Bounds == phase = "move" => \A p \in 1..Len(perm) : Lower(orig, perm, p) <= p /\ p <= Upper(orig, perm, p)
 Inv_Swap   == phase = "move" => \A p \in 1..(Len(perm) - 1) :
                  Independent(orig, perm, p) => MoveOk(orig, perm, p, p + 1) /\ MoveOk(orig, perm, p + 1, p)
+\* the bounds and the rotation in the form used by the unbounded proof spec/proof/DepsProof.tla
+Inv_BoundsForm == phase = "move" => \A f, t \in 1..Len(perm) :
+    MoveOk(orig, perm, f, t) <=>
+       /\ \A q \in 1..Len(orig) : Conflict(orig, q, perm[f]) => Pos(perm, q) < t
+       /\ \A q \in 1..Len(orig) : Conflict(orig, perm[f], q) => t < Pos(perm, q)
+Inv_RotateForm == phase = "move" => \A f, t \in 1..Len(perm) : \A y \in 1..Len(perm) :
+    Pos(Rotate(perm, f, t), y) =
+       (IF y = perm[f] THEN t
+        ELSE IF f < Pos(perm, y) /\ Pos(perm, y) <= t THEN Pos(perm, y) - 1
+        ELSE IF t <= Pos(perm, y) /\ Pos(perm, y) < f THEN Pos(perm, y) + 1
+        ELSE Pos(perm, y))
 Dump == (Gen /\ phase = "move") => PrintT(<<"HIST", ToJson(hist)>>)
 =============================================================================
